@@ -10,16 +10,21 @@ CONSTANTS UA, UB,            \* sets of top-level nodes (destination, source)
 
 VARIABLES a, b, pol, fp, fpol, ph
 vars == <<a, b, pol, fp, fpol, ph>>
+\* cached aliases: a constant bound with `<-` in the .cfg is re-evaluated on every use, a definition is not
+cUA == UA
+cUB == UB
+cFieldPaths == FieldPaths
+
 
 (* Init enumerates only the destination; the rest is chosen by Next so that
    TLC's workers share the enumeration (initial states are computed by one
    thread).  Every invariant is guarded by ph = 1.                            *)
 NoFP == <<NF("-none-")>>
-Init == /\ a \in UA /\ b = Empty /\ pol = "default" /\ fp = NoFP /\ fpol = "merge" /\ ph = 0
+Init == /\ a \in cUA /\ b = Empty /\ pol = "default" /\ fp = NoFP /\ fpol = "merge" /\ ph = 0
 Next == /\ ph = 0 /\ ph' = 1 /\ a' = a
-        /\ b' \in UB /\ pol' \in Pols
+        /\ b' \in cUB /\ pol' \in Pols
         /\ \/ fp' = NoFP /\ fpol' = "merge"
-           \/ fp' \in FieldPaths /\ fpol' \in FPols
+           \/ fp' \in cFieldPaths /\ fpol' \in FPols
 
 Fos  == IF fp = NoFP THEN <<>> ELSE <<[path |-> fp, pol |-> fpol]>>
 Res  == Merge(Dev, pol, Fos, a, b)
@@ -62,7 +67,7 @@ EmptyIsIdentity ==
            /\ Canon(Merge(Dev, pol, <<>>, Empty, b)) = Canon(b)
 
 SelfMerge ==
-  (Plain /\ a \in UB /\ pol \in {"default", "replace", "arrreplace"}) =>
+  (Plain /\ a \in cUB /\ pol \in {"default", "replace", "arrreplace"}) =>
      Canon(Merge(Dev, pol, <<>>, a, a)) = Canon(a)
 
 (* nothing is invented: every primitive of the result occurs in an operand    *)
